@@ -1,7 +1,7 @@
 """Single source for MANIFEST.json (bin/mkmanifest)."""
 
-HOOK_COMMITS = ["be704c0"]
-FIX_COMMITS = ["489cde8"]   # filled by bin/mkmanifest callers: /repo commits that add guarded hooks
+HOOK_COMMITS = ["673019b", "625d9ba"]
+FIX_COMMITS = ["12c9092", "3e9b6da"]   # filled by bin/mkmanifest callers: /repo commits that add guarded hooks
 
 NOTES = ("All checks: bin/check <id>. Exit 0 = held, 1 = VIOLATION line + replay file, 2 = tool error (never a verdict). "
          "Specs under spec/<family>/, harness under harness/ (path deps on /repo; rebuilt by every check). "
